@@ -119,7 +119,7 @@ PROPS = {
  },
  "C16": {
   "module": "Zog.Props.C16",
-  "theorems": [P + "C16." + t for t in ["clone_copies", "heap_refines_pure", "pure_step_frame", "heap_step_frame", "pick_fields", "omit_fields", "union_fields", "merge_tests"]],
+  "theorems": [P + "C16." + t for t in ["clone_copies", "heap_refines_pure", "pure_step_frame", "heap_step_frame", "pick_fields", "omit_fields", "union_fields", "merge_tests", "union_assoc", "merge3_tests"]],
   "streams": [st("helpers", 1500, 100000)],
   "trusted_base": ["modelled, not verified: lean/Zog/Helpers.lean mirrors struct_helpers.go (cloneShallow/Pick/Omit/Extend/Merge) and StructSchema.Test/PostTransform with Go slice semantics (in-place append while len < cap, arbitrary growth policy)",
                    "regenerated (go/ast): Gen.cloneCopies — cloneShallow gives the derived schema its own tests/postTransforms arrays",
